@@ -12,3 +12,15 @@ func (f *StreamFace) VerifC11SetConn(c net.Conn) {
 	f.conn = c
 	f.running.Store(true)
 }
+
+// VerifC11SwapConn replaces the connection that the real Open() has just dialled by a scripted
+// one (closing the dialled one). It does nothing, and says so, when the face holds no connection
+// any more. Called by the harness right after Open() returned, before any other thread runs.
+func (f *StreamFace) VerifC11SwapConn(c net.Conn) bool {
+	if f.conn == nil {
+		return false
+	}
+	f.conn.Close()
+	f.conn = c
+	return true
+}
